@@ -559,12 +559,16 @@ func (v *audioPackager) Encode(frame *AudioFrame) (tag []byte, err error) {
 func (v *audioPackager) Decode(tag []byte) (frame *AudioFrame, err error) {
 	// Refer to @doc video_file_format_spec_v10.pdf, @page 76, @section E.4.2 Audio Tags
 	// @see SrsFormat::audio_aac_demux
-	if len(tag) < 2 {
+	if len(tag) < 1 {
 		err = errDataNotEnough
 		return
 	}
 
 	t := uint8(tag[0])
+	if format := AudioCodec(uint8(t>>4) & 0x0f); (format == AudioCodecAAC || format == AudioCodecOpus) && len(tag) < 2 {
+		err = errDataNotEnough
+		return
+	}
 	frame = &AudioFrame{}
 	frame.SoundFormat = AudioCodec(uint8(t>>4) & 0x0f)
 	frame.SoundRate = AudioSamplingRate(uint8(t>>2) & 0x03)
@@ -727,7 +731,11 @@ func NewVideoPackager() (VideoPackager, error) {
 }
 
 func (v *videoPackager) Decode(tag []byte) (frame *VideoFrame, err error) {
-	if len(tag) < 5 {
+	if len(tag) < 1 {
+		err = errDataNotEnough
+		return
+	}
+	if codec := VideoCodec(byte(tag[0]) & 0x0f); (codec == VideoCodecAVC || codec == VideoCodecHEVC) && len(tag) < 5 {
 		err = errDataNotEnough
 		return
 	}
